@@ -18,7 +18,8 @@ RULE = ("1-4 case arguments, 1-8 distinct cases (dict spelling through combo_run
 TRUSTED = ["unsortable (mixed-type) coordinate order is not modelled (generators keep one type per argument)"]
 ASSUMPTIONS = ["all cases of one request have the same keys (the property's quantifier)"]
 
-KINDS = sweeps.KINDS_BASIC + [{'tuple': [[[], 'str'], [[], 'num'], [[], 'bool']]}, sweeps.KIND_DS,
+KINDS = sweeps.KINDS_BASIC + [{'tuple': [[[], 'str'], [[], 'num'], [[], 'bool']]}, sweeps.KIND_DS, {'ds': [['u', [2], 'num']]},
+                               {'arr': [[1, 2], 'num']},        # a nested list whose outer length is one
                                {'ds': [['u', [], 'int'], ['v', [2], 'bool']]}, {'ds': [['u', [2], 'str'], ['v', [], 'int']]}]
 
 
@@ -47,6 +48,8 @@ def _case(rng, heavy_ok=False, **kw):
     if via == 'case_runner' and len(sw['case_args']) == 1 and rng.random() < 0.6:
         c['spelling'] = 'bare'
     if 'ds' in kind:
+        # the function returns a Dataset, a plain dict of (dims, data) pairs, or (one variable) a named DataArray
+        c['xr_form'] = rng.choice([True, True, 'dict'] + (['dataarray', 'dataarray'] if len(kind['ds']) == 1 else []))
         c['strategy'] = {'name': rng.choice(['seq', 'shuffle_int']), 'shuffle': rng.randint(1, 30)}
         if c['strategy']['name'] == 'seq': c['strategy'].pop('shuffle')
     return c
@@ -170,7 +173,7 @@ def teardown(ctx):
 def _rec(c):
     sw, kind = c['sweep'], c['kind']
     if 'ds' in kind:
-        return sweeps.make_rec(sw, kind, as_xr=True, dims={n: ['i%d' % d for d in range(len(sh))] for n, sh, _ in kind['ds']})
+        return sweeps.make_rec(sw, kind, as_xr=c.get('xr_form') or True, dims={n: ['i%d' % d for d in range(len(sh))] for n, sh, _ in kind['ds']})
     return sweeps.make_rec(sw, kind)
 
 
